@@ -126,6 +126,36 @@ def family_T(tier, seed, n=None, faults=False, probes=False, tag="T"):
     return out
 
 
+def family_nonrand_member(tier, seed, n=None):
+    """a NON-RANDOM member object that itself holds objects (and object lists), left in a state that violates its own blocks
+    and those of the objects below it: none of them takes part in a call on the top object, their fields are constants"""
+    out = []
+    n = n or (6 if tier == "quick" else 60)
+    for t in range(n):
+        rnd = random.Random(1790 + t + (0 if t < n // 2 else seed * 131))
+        world, info = tree_world(rnd)
+        for f in world["classes"]["Top"]["fields"]:
+            if f["name"] == "s2":
+                f["rand"] = False
+            if f["name"] == "s1":
+                f["rand"] = True
+        ops = [{"op": "construct", "o": "o1"}, {"op": "call", "call": mcall("o1")},
+               # s2.x > s2.lf.x violates Mid.mc ; s2.lf.x == s2.lf.z violates Leaf.lc
+               {"op": "set", "p": "o1.s2.x", "v": bits(3, 2)}, {"op": "set", "p": "o1.s2.lf.x", "v": bits(rnd.choice([0, 1]), 2)}]
+        ops.append({"op": "set", "p": "o1.s2.lf.z", "v": ops[-1]["v"]})
+        if info["has_ll"]:
+            ops += [{"op": "set", "p": "o1.s2.ll[0].x", "v": bits(2, 2)}, {"op": "set", "p": "o1.s2.ll[1].x", "v": bits(2, 2)}]     # violates Mid.ml
+        for k_ in range(3):
+            ops.append({"op": "call", "call": rnd.choice([mcall("o1"), wcall([E(B("ge", F("s1.lf.x"), 1))], "o1"),
+                                                          {"kind": "free", "roots": ["o1"], "owner": "", "inline": []}])})
+        ops.append(tree_probe("o1", info))
+        # now as the ROOT of a call it is random (for that call) and its blocks are in force
+        ops.append({"op": "call", "call": {"kind": "free", "roots": ["o1.s2"], "owner": "", "inline": []}})
+        ops.append({"op": "call", "call": mcall("o1")})
+        out.append({"id": "TN/%d" % t, "world": world, "ops": ops, "tags": []})
+    return out
+
+
 # ------------------------------------------------------------------------------------------
 # construction-time faults (C16): a constraint body raises while the object is being built
 # ------------------------------------------------------------------------------------------
